@@ -1,3 +1,9 @@
 import Vita.C11.DriverLib
-/-! C12 driver: same line protocol as C11 (`load <type> <hex>` on damaged streams). -/
-def main : IO Unit := Vita.C11.Drv.driverMain
+import Vita.C12.FlowTable
+/-! C12 driver: same line protocol as C11 (`load <type> <hex>` on damaged streams);
+    `c12_driver flow` prints what the obligations say about every entry of the extracted table. -/
+def main (args : List String) : IO Unit := do
+  if args == ["flow"] then
+    for l in Vita.C12.flowReport do IO.println l
+  else
+    Vita.C11.Drv.driverMain
